@@ -566,9 +566,19 @@ def font_traces(job):
 
 # --------------------------------------------------------------------------------------
 # judging
-def slim(t):
-    cases = [{"loc": c["loc"], "ft": {"raised": c["ft"]["raised"], "calls": c["ft"]["calls"], "w": c["ft"]["w"]},
-              "hb": c["hb"]} for c in t["cases"]]
+NO_HB = {"has": 0, "calls": [], "w": [0, 1]}
+HB_EVERY = 3   # HarfBuzz's observation is sent to TLC for every 3rd case (anomaly statistics, corroboration
+               # of the reference) and, in a second pass, for every case fontTools fails (triage)
+
+
+def slim(t, hb_all=False, only=None):
+    cases = []
+    for i, c in enumerate(t["cases"]):
+        if only is not None and i not in only:
+            continue
+        send = hb_all or (i % HB_EVERY == 0)
+        cases.append({"loc": c["loc"], "ft": {"raised": c["ft"]["raised"], "calls": c["ft"]["calls"], "w": c["ft"]["w"]},
+                      "hb": c["hb"] if send else NO_HB})
     out = {"kind": t["kind"], "F": t["F"], "gi": t["gi"], "K": t["K"], "cases": cases}
     if t["kind"] == "cff":
         out.update({"cs": t["cs"], "D": t["D"], "rgn": t["rgn"]})
@@ -595,7 +605,7 @@ def trace_weight(t):
     return w
 
 
-def judge_all(chk, traces, what, stats):
+def judge_all(chk, traces, what, stats, hb_all=False):
     """send traces to TLC in chunks of bounded weight; account verdicts"""
     if not traces:
         return
@@ -611,21 +621,44 @@ def judge_all(chk, traces, what, stats):
     if cur:
         chunks.append(cur)
     for part in chunks:
-        r = tlc_retry(chk, "Trace_C05", traces=[slim(t) for t in part], timeout=1700, env=JAVA_ENV, workers=TLC_WORKERS,
-                      label="Trace_C05:" + what)
+        r = tlc_retry(chk, "Trace_C05", traces=[slim(t, hb_all=hb_all) for t in part], timeout=1700, env=JAVA_ENV,
+                      workers=TLC_WORKERS, label="Trace_C05:" + what)
         if r.distinct != 2 * len(part):
             raise MachineryError("Trace_C05 judged %d states for %d traces" % (r.distinct, len(part)))
         got = {}
         for payload in r.rej:
             got.setdefault(payload[0], []).append(payload[1])
+        verdicts = []
         for tid, t in enumerate(part, 1):
-            clauses = got.get(tid, [])
             per_case = {}
-            for cl in clauses:
+            for cl in got.get(tid, []):
                 m = re.match(r"^(\d+):(.*)$", cl)
                 if not m:
                     raise MachineryError("unparsable verdict %r" % cl)
                 per_case.setdefault(int(m.group(1)), []).append(m.group(2))
+            verdicts.append(per_case)
+        # second pass (triage): cases fontTools fails for an unnamed reason are re-judged WITH HarfBuzz's observation
+        again = []
+        for t, per_case in zip(part, verdicts):
+            idx = [ci - 1 for ci, cls in per_case.items()
+                   if ci > 0 and any(x in ("ft:outline", "ft:advance") for x in cls) and (ci - 1) % HB_EVERY != 0
+                   and t["cases"][ci - 1]["hb"]["has"] == 1]
+            if idx:
+                again.append((t, per_case, sorted(idx)))
+        if again and not hb_all:
+            r2 = tlc_retry(chk, "Trace_C05", traces=[slim(t, hb_all=True, only=set(idx)) for t, _pc, idx in again], timeout=1700,
+                           env=JAVA_ENV, workers=TLC_WORKERS, label="Trace_C05:" + what + ":triage")
+            got2 = {}
+            for payload in r2.rej:
+                got2.setdefault(payload[0], []).append(payload[1])
+            for k, (t, per_case, idx) in enumerate(again, 1):
+                fresh = {}
+                for cl in got2.get(k, []):
+                    m = re.match(r"^(\d+):(.*)$", cl)
+                    fresh.setdefault(int(m.group(1)), []).append(m.group(2))
+                for pos, ci0 in enumerate(idx, 1):
+                    per_case[ci0 + 1] = fresh.get(pos, [])
+        for tid, (t, per_case) in enumerate(zip(part, verdicts), 1):
             if 0 in per_case:
                 for cl in per_case[0]:
                     if cl.startswith("skip:"):
@@ -670,7 +703,7 @@ def judge_all(chk, traces, what, stats):
                         for key in keys:
                             chk.reject(key, "%s: %s at %s location %s of %s" % (what, x, c["lk"], c["loc"], json.dumps(t["meta"])),
                                        {"meta": t["meta"], "clause": x, "loc": c["loc"], "lk": c["lk"],
-                                        "trace": dict(slim(t), cases=[slim(t)["cases"][ci - 1]])})
+                                        "trace": slim(t, hb_all=True, only={ci - 1})})
                 else:
                     if not orc:
                         stats["ok"] += 1
@@ -729,6 +762,40 @@ def model_jobs(chk):
     return jobs
 
 
+def gen_jobs(chk):
+    """(R) fonts described by TLC: reachable states of MC_GlyfSem's generation universes, realised with
+    FontBuilder; the bytes read back by the independent readers must describe the same font"""
+    from . import c05_realize as RZ
+
+    r = chk.tlc("MC_GlyfSem", cfg="MC_GlyfSem_gen", label="MC_GlyfSem_gen", timeout=1500, env=JAVA_ENV, workers=4)
+    gens = []
+    for payload in r.prints.get("GEN", []):
+        gens.append(json.loads(payload[0]))
+    if len(gens) < 1000:
+        raise MachineryError("MC_GlyfSem_gen exported only %d font descriptions" % len(gens))
+    chk.notes["tlc_generated_fonts"] = len(gens)
+    by = {}
+    for g in gens:
+        by.setdefault(g["u"][0], []).append(g)
+    quick = chk.tier == "quick"
+    want = {"cp": 24 if quick else 600, "pm": 6 if quick else 80, "gv": 16 if quick else 400}
+    rng = random.Random("c05-gen-%d" % chk.seed)
+    jobs = []
+    for kind in ("cp", "pm", "gv"):
+        pool = sorted(by.get(kind, []), key=lambda g: json.dumps(g["u"]))
+        pick = pool if len(pool) <= want[kind] else rng.sample(pool, want[kind])
+        for g in pick:
+            data = RZ.realize(g["F"])
+            back = RawFont(data).glyf_F(len(g["F"]["glyphs"]) - 1)
+            why = RZ.same_description(g["F"], back)
+            if why:
+                raise MachineryError("realised font does not read back as described (%s): %s" % (why, json.dumps(g["u"])))
+            jobs.append({"label": "tlc:" + "-".join(map(str, [x if not isinstance(x, list) else "".join(map(str, x)) for x in g["u"]])),
+                         "data": data, "index": 0, "tier": chk.tier, "seed": chk.seed, "cap": None, "full_lattice": True,
+                         "maxloc": 8 if quick else 30})
+    return jobs
+
+
 def run_jobs(chk, jobs, what, stats):
     t0 = time.time()
     res = common.pmap(font_traces, jobs, procs=12)
@@ -738,6 +805,15 @@ def run_jobs(chk, jobs, what, stats):
         for r, n in skips.items():
             chk.skip(r, n)
         stats["w_before_differs"] += notes.get("w_before_differs", 0)
+    # units of at most 6 cases, so that TLC's workers stay evenly loaded
+    units = []
+    for t in traces:
+        if len(t["cases"]) <= 8:
+            units.append(t)
+        else:
+            for k in range(0, len(t["cases"]), 6):
+                units.append(dict(t, cases=t["cases"][k:k + 6]))
+    traces = units
     ncases = sum(len(t["cases"]) for t in traces)
     chk.count(ncases)
     chk.log("%s: %d fonts -> %d glyph traces, %d cases recorded in %.1fs" % (what, len(jobs), len(traces), ncases, time.time() - t0))
@@ -774,6 +850,7 @@ def run(chk):
         if not need <= set(cov):
             raise MachineryError("%s is vacuous: cases never exercised: %s" % (cfg, sorted(need - set(cov))))
     # (R)
+    run_jobs(chk, gen_jobs(chk), "TLC-generated fonts", stats)
     run_jobs(chk, model_jobs(chk), "model fonts", stats)
     # (V)
     run_jobs(chk, corpus_jobs(chk), "corpus", stats)
@@ -836,4 +913,4 @@ def replay(chk, rep):
     else:
         chk.log("font not on disk (model font): re-judging the recorded observation")
     chk.count(len(t["cases"]))
-    judge_all(chk, [t], "replay", stats)
+    judge_all(chk, [t], "replay", stats, hb_all=True)
